@@ -380,7 +380,7 @@ func r3C12(c *Ctx) {
 	}
 	n := 0
 	for _, ret := range returnsOf(fn) {
-		for _, lf := range Leaves(ret.Results[0], ret.Block()) {
+		for _, lf := range BoolLeaves(ret.Results[0], ret.Block()) {
 			k, ok := lf.V.(*ssa.Const)
 			if !ok || constText(k) != "true" {
 				continue
@@ -392,7 +392,13 @@ func r3C12(c *Ctx) {
 					return t.Any(func(x *Term) bool { return x.Op == "lookup" })
 				}
 				isEmpty := func(t *Term) bool { return t.Op == "const" && t.Name == "" }
-				return f.Op == "!=" && ((isLabel(f.L) && isEmpty(f.R)) || (isLabel(f.R) && isEmpty(f.L)))
+				if f.Op == "!=" && ((isLabel(f.L) && isEmpty(f.R)) || (isLabel(f.R) && isEmpty(f.L))) {
+					return true
+				}
+				// len(label) != 0  /  len(label) > 0
+				isLen := func(t *Term) bool { return MLen(isLabel)(t) }
+				isZero := func(t *Term) bool { return t.Op == "const" && t.Name == "0" }
+				return (f.Op == "!=" || f.Op == ">") && isLen(f.L) && isZero(f.R) || (f.Op == "!=" || f.Op == "<") && isLen(f.R) && isZero(f.L)
 			})
 			c.Ob("R12.7", "IsConsistentWithRevision#return(true)", ret.Pos(), nonEmpty, "a match requires the revision label to be non-empty", ifs(!nonEmpty, "`true` is returned without the label value having been compared with \"\": an empty label is a suffix of every revision, so pods of the old revision are counted and labelled as updated")).WithFacts(fs)
 		}
